@@ -151,6 +151,22 @@ def designed(rnd, d):
     return [power_to_bernstein(px, d), power_to_bernstein(py, d)], "c=%s e=%s" % (c, e)
 
 
+def pocket(rnd):
+    """cubic triangles with x = x(s) only, so that det J = x_s * y_t with
+         x_s = 48 (1/4 + 4 (s - s1)^2) > 0,    y_t = 24 ((1 - c) + 64 ((s - s0)^2 + (t - t0)^2)):
+    for c > 1 the Jacobian is negative exactly in the disc of radius sqrt((c - 1)/64) around (s0, t0) - a pocket that
+    contains no corner of the first subdivision levels and sits in ANY of the four sub-triangles of the first
+    subdivision - while other sub-triangles stay undecided for a while because x_s is small near s = s1 (mixed Bernstein
+    coefficients although the determinant is positive there); c < 1: valid with a margin"""
+    s0, t0 = rnd.choice([(Fr(1, 8), Fr(1, 8)), (Fr(5, 8), Fr(1, 8)), (Fr(1, 8), Fr(5, 8)), (Fr(3, 8), Fr(3, 8)), (Fr(5, 16), Fr(3, 16)),
+                         (Fr(1, 4), Fr(1, 2)), (Fr(9, 16), Fr(5, 16))])
+    s1 = rnd.choice([Fr(3, 4), Fr(1, 4), Fr(1, 2), Fr(7, 8)])
+    c = rnd.choice([Fr(3, 2), Fr(9, 8), Fr(5, 4), Fr(17, 16), Fr(1, 2), Fr(3, 4), Fr(2)])
+    px = {(3, 0): Fr(64), (2, 0): -192 * s1, (1, 0): 12 + 192 * s1 * s1}
+    py = {(2, 1): Fr(1536), (1, 1): -3072 * s0, (0, 1): 24 * ((1 - c) + 64 * s0 * s0 + 64 * t0 * t0), (0, 3): Fr(512), (0, 2): -1536 * t0}
+    return [power_to_bernstein(px, 3), power_to_bernstein(py, 3)], "pocket (%s,%s) s1=%s c=%s" % (s0, t0, s1, c)
+
+
 def main():
     bezier = C.import_bezier()
     from bezier.hazmat import triangle_helpers as TH
@@ -181,6 +197,10 @@ def main():
                 nodes, tag = designed(rnd, d)
                 assert all(Fr(float(v)) == v for r in nodes for v in r)
                 add("verdict", nodes=nodes, d=d, family="designed:" + tag, lattice=True)
+        for _ in range(40 if not thorough else 300):
+            nodes, tag = pocket(rnd)
+            if all(Fr(float(v)) == v for r in nodes for v in r):
+                add("verdict", nodes=nodes, d=3, family="designed:" + tag, lattice=True)
         for d in (2, 3):
             nn = G.tri_nodes_count(d)
             for _ in range(10 if not thorough else 60):
